@@ -635,7 +635,9 @@ func (w *uciWorld) apply(st UStep) bool {
 			w.co.resumeN <- max(1, st.Polls)
 		}
 	case "tick":
-		if w.hazard {
+		// (the selector blocked outside its select with nothing to write cannot
+		// happen on the unchanged tree; there time may pass)
+		if w.hazard && w.hasPend {
 			return false
 		}
 		if st.DUS > 0 {
